@@ -25,7 +25,28 @@ def cfg_core():
             'assoc_filter': None}
 
 
+# Non-initial start states (name -> prefix of valid calls).  'twins': two unnamed assets linked in the same
+# way to a third one - the object graph on which value comparison of the generated classes does not
+# terminate; 'selfpair': an asset on both sides of a two-member association plus an attacker on it.
+STARTS = {
+    'twins': [('add_asset', 'Host', None, None, True), ('add_asset', 'Host', None, None, True),
+              ('add_asset', 'Host', None, None, True), ('add_association', 'Peer', (0,), (2,)),
+              ('add_association', 'Peer', (1,), (2,)), ('add_attacker', None), ('add_entry_point', 0, 1, 'access')],
+    'selfpair': [('add_asset', 'Host', 'n', None, True), ('add_asset', 'Host', None, None, True),
+                 ('add_association', 'Peer', (0, 1), (0,)), ('add_asset', 'Data', None, None, True),
+                 ('add_association', 'Holds', (0,), (2,)), ('add_attacker', None), ('add_entry_point', 0, 0, 'access'),
+                 ('add_entry_point', 0, 2, 'read')],
+}
+
+
 def make_system(name):
+    if '@' in name:
+        lang, start = name.split('@')
+        cfg = {'OPS': cfg_ops}[lang]()
+        cfg['prefix'] = STARTS[start]
+        cfg['max_assets'] = 4
+        cfg['max_assocs'] = 4
+        return ModelSystem(cfg)
     cfg = {'OPS': cfg_ops, 'OPS2': cfg_ops2, 'coreLang': cfg_core}[name]()
     if name == 'coreLang':
         # slice: only associations whose both ends are satisfiable by the two asset types used
@@ -38,8 +59,9 @@ def make_system(name):
 
 
 PLANS = {
-    'quick': [('OPS', 5, 1), ('OPS', 4, 2), ('OPS2', 4, 1)],
-    'thorough': [('OPS', 6, 1), ('OPS', 5, 2), ('OPS2', 5, 1), ('OPS2', 4, 2), ('coreLang', 4, 1)],
+    'quick': [('OPS', 5, 1), ('OPS', 3, 2), ('OPS2', 4, 1), ('OPS@twins', 2, 1), ('OPS@selfpair', 2, 1)],
+    'thorough': [('OPS', 6, 1), ('OPS', 5, 2), ('OPS2', 5, 1), ('OPS2', 4, 2), ('coreLang', 4, 1),
+                 ('OPS@twins', 3, 2), ('OPS@selfpair', 3, 2)],
 }
 
 
